@@ -13,7 +13,11 @@ use crate::drive::{self, Protocol};
 use crate::svgen::{self, ClockInfo, FEATURES, SvModule};
 use crate::svref;
 use std::collections::BTreeMap;
+use std::sync::atomic::{AtomicBool, Ordering};
 use std::sync::{Arc, Mutex};
+
+/// sensitivity experiment only: corrupt one operator of the re-emitted SV
+static FAULT_MUTATE_EMITTED: AtomicBool = AtomicBool::new(false);
 use vcommon::pipeline::{analyze_one, default_metadata};
 use vcommon::pool::{STACK_64M, fresh_thread, par_cases};
 use vcommon::rng::hash_str;
@@ -78,11 +82,13 @@ fn repair_clock_reset(veryl: &str, ci: &ClockInfo) -> String {
     };
     let mut out = String::new();
     for l in veryl.lines() {
-        let t = l.trim();
-        if t == "clk: input logic," {
-            out.push_str(&l.replace("input logic", &format!("input {clk_ty}")));
-        } else if t == "rst: input logic," {
-            out.push_str(&l.replace("input logic", &format!("input {rst_ty}")));
+        // the formatter aligns the port list (`clk: input  logic   ,`): compare without whitespace
+        let t: String = l.chars().filter(|c| !c.is_whitespace()).collect();
+        let indent: String = l.chars().take_while(|c| c.is_whitespace()).collect();
+        if t == "clk:inputlogic," {
+            out.push_str(&format!("{indent}clk: input {clk_ty},"));
+        } else if t == "rst:inputlogic," {
+            out.push_str(&format!("{indent}rst: input {rst_ty},"));
         } else {
             out.push_str(l);
         }
@@ -195,6 +201,9 @@ pub fn run_module(m: &SvModule, stim: &Stimulus) -> CaseOut {
         }
     } else {
         out.stage = "ok".into();
+    }
+    if FAULT_MUTATE_EMITTED.load(Ordering::Relaxed) {
+        a.sv = if a.sv.contains(" ^ ") { a.sv.replacen(" ^ ", " | ", 1) } else { a.sv.replacen(" + ", " - ", 1) };
     }
     out.emitted_sv = a.sv.clone();
     if let Err(e) = svref::syntax_gate(&a.sv) {
@@ -380,6 +389,10 @@ pub fn main(args: Args) {
     let combos = args.budget("combos", 40, 4000);
     let seed = args.seed;
     let pass: Arc<Mutex<BTreeMap<String, (u64, u64)>>> = Arc::new(Mutex::new(BTreeMap::new()));
+    if args.get("fault_mutate_emitted").is_some() {
+        FAULT_MUTATE_EMITTED.store(true, Ordering::Relaxed);
+        run.inconclusive("fault injection active (sensitivity experiment): verdict is not about /repo".into());
+    }
 
     if let Some(rp) = &args.replay {
         let v: Json = serde_json::from_str(&std::fs::read_to_string(rp).expect("replay")).unwrap();
